@@ -6,7 +6,7 @@
     functions ([paths_of], [paths_to], [connected_components], ...) transcribe graph/*.go; panics
     and fuel exhaustion are the result values [Panic]/[Hang], so "returns [Ok]" includes
     termination of every loop and recursion of the model. *)
-From Algo.C14 Require Import Spec ProofsBasic ProofsTrav ProofsReach ProofsBfs ProofsScc ProofsCC ProofsSpt ProofsTopo ProofsCycle ProofsOrders ProofsMsf1 ProofsMsf2.
+From Algo.C14 Require Import Spec ProofsBasic ProofsTrav ProofsReach ProofsBfs ProofsScc ProofsCC ProofsSpt ProofsTopo ProofsCycle ProofsOrders ProofsMsf1 ProofsMsf2 ProofsDijkstra.
 
 (** * The property at full strength *)
 Definition nonneg (es : list edge) : Prop := forall e, In e es -> (0 <= e_w e)%Z.
@@ -183,29 +183,41 @@ Theorem C14_check_spt_sound :
       end.
 Proof. exact check_spt_sound. Qed.
 
-(** Clause 7 (Dijkstra), partial: whenever the PathTo answers of the computed tree pass the
-    checker they are correct.  Missing: that Dijkstra's output always passes for non-negative
-    weights (checked on every generated graph). *)
-Theorem C14_dijkstra_partial :
-  forall n es s t,
+(** Clause 7 of [C14_full], fully proved: for non-negative weights Dijkstra terminates within
+    its fuel (at most n extractions), PathTo terminates, and returns for every reachable vertex the
+    minimum distance together with a real path of exactly that weight; "none" exactly for the
+    unreachable vertices.  (Invariant: settled vertices have final distances, every edge out of a
+    settled vertex is relaxed, queue keys are at least the last extracted key, and the edgeTo links of
+    labelled vertices lead back to the source through settled vertices only.) *)
+Theorem C14_dijkstra :
+  forall n es s, nonneg es -> s < n ->
     let g := mk_graph true n es in
-    shortest_path_tree g s = Ok t ->
-    check_spt g s (map (fun v => match path_to t v with Ok x => x | _ => None end) (seq 0 n)) = true ->
-    forall v, v < n ->
-      match path_to t v with
-      | Ok (Some (p, dist)) => epath g s p v /\ weight_of p = dist /\
-                               forall p', epath g s p' v -> (dist <= weight_of p')%Z
-      | Ok None => ~ reach g s v
-      | _ => True
-      end.
+    exists t, shortest_path_tree g s = Ok t /\
+      forall v, v < n ->
+        match path_to t v with
+        | Ok (Some (p, dist)) => epath g s p v /\ weight_of p = dist /\
+                                 forall p', epath g s p' v -> (dist <= weight_of p')%Z
+        | Ok None => ~ reach g s v
+        | _ => False
+        end.
 Proof.
-  intros n es s t g _ Hc v Hv.
-  destruct (check_spt_sound g s _ (wf_mk_graph true n es) Hc) as [_ K].
-  unfold g in K. rewrite mk_graph_n in K. specialize (K v Hv).
-  rewrite (nth_map_seq (fun v => match path_to t v with Ok x => x | _ => None end) n v None Hv) in K.
-  destruct (path_to t v) as [[[p d]|]| |]; auto.
-  intros R. destruct (reach_epath _ (wf_mk_graph true n es) (mk_graph_dir true n es) s v R) as [p P].
-  exact (K p P).
+  intros n es s Hnn Hs g.
+  pose proof (dijkstra_correct g (wf_mk_graph true n es) (mk_graph_dir true n es)) as H.
+  unfold g in *. rewrite mk_graph_n in H. apply H; auto.
+  intros v e He. apply Hnn. eapply adj_edges_mk; eauto.
+Qed.
+
+(** ... and the model's answers always pass the proved checker [check_spt]. *)
+Theorem C14_dijkstra_passes_check :
+  forall n es s, nonneg es -> s < n ->
+    let g := mk_graph true n es in
+    exists t, shortest_path_tree g s = Ok t /\
+      check_spt g s (map (fun v => match path_to t v with Ok x => x | _ => None end) (seq 0 n)) = true.
+Proof.
+  intros n es s Hnn Hs g.
+  pose proof (dijkstra_passes g (wf_mk_graph true n es) (mk_graph_dir true n es)) as H.
+  unfold spt_out, g in *. rewrite mk_graph_n in H.
+  destruct (H (fun v e He => Hnn e (adj_edges_mk _ _ _ _ _ He)) s Hs) as [t [A [B _]]]. eauto.
 Qed.
 
 (** Checker theorem for minimum spanning forests, unbounded, any integer weights: an edge set
@@ -271,7 +283,8 @@ Print Assumptions C14_directed_cycle.
 Print Assumptions C14_topological_order_acyclic.
 Print Assumptions C14_topological.
 Print Assumptions C14_check_spt_sound.
-Print Assumptions C14_dijkstra_partial.
+Print Assumptions C14_dijkstra.
+Print Assumptions C14_dijkstra_passes_check.
 Print Assumptions C14_check_msf_sound.
 Print Assumptions C14_prim_partial.
 Print Assumptions C14_check_path_sound.
